@@ -68,35 +68,46 @@ def p_macro_self_recursion(text):
     return any(re.search(r"\b%s\s*\(" % re.escape(k), body) for k in selfr)
 
 
+def max_adjacent(rx, text):
+    """Longest run of matches of rx that follow each other without a gap (linear time)."""
+    best = run_ = 0
+    end = -1
+    for m in rx.finditer(text):
+        run_ = run_ + 1 if m.start() == end else 1
+        end = m.end()
+        best = max(best, run_)
+    return best
+
+
 def p_macro_nesting(text):
     """More than 1000 macro expansions are active at once: a chain of > 1000 object-like macros each
     defined as the next one, or > 1000 macro invocations nested in each other's arguments."""
     objs = dict(re.findall(r"^[ \t]*#[ \t]*define[ \t]+(%s)[ \t]+(%s)[ \t]*$" % (ID, ID), text, re.M))
-    best = 0
-    for k in list(objs)[:3]:
-        n, cur, seen = 0, k, set()
-        while cur in objs and cur not in seen:
-            seen.add(cur)
-            cur = objs[cur]
-            n += 1
-        best = max(best, n)
-    if best > 1000:
-        return True
+    if len(objs) > 1000:
+        targets = set(objs.values())
+        for k in [k for k in objs if k not in targets][:3] or list(objs)[:1]:
+            n, cur, seen = 0, k, set()
+            while cur in objs and cur not in seen:
+                seen.add(cur)
+                cur = objs[cur]
+                n += 1
+            if n > 1000:
+                return True
     for name in fn_macros(text):
-        if re.search(r"(?:\b%s\s*\(\s*){1000}" % re.escape(name), text):
+        if max_adjacent(re.compile(r"\b%s\s*\(\s*" % re.escape(name)), text) > 1000:
             return True
     return False
 
 
 def p_div_zero(text):
     """`/` or `%` whose right operand is a zero-valued literal or a parenthesised `n-n`."""
-    return bool(re.search(r"[/%]\s*\(*\s*(0[xX]0+|0+(?:\.0*)?)(?![\w.'])", text)) or \
-        bool(re.search(r"[/%]\s*\(\s*(\d+)\s*-\s*\1\s*\)", text))
+    return bool(re.search(r"[/%][ \t]*(?:\([ \t]*)*(0[xX]0+|0+(?:\.0*)?)(?![\w.'])", text)) or \
+        bool(re.search(r"[/%][ \t]*\([ \t]*(\d+)[ \t]*-[ \t]*\1[ \t]*\)", text))
 
 
 def p_div_overflow(text):
     """INT_MIN divided by (or modulo) -1."""
-    return bool(re.search(r"[/%]\s*\(?\s*-\s*1\b", text)) and bool(re.search(r"2147483647\s*-\s*1|2147483648", text))
+    return bool(re.search(r"[/%][ \t]*\(?[ \t]*-[ \t]*1\b", text)) and bool(re.search(r"2147483647[ \t]*-[ \t]*1|2147483648", text))
 
 
 def p_xor(text):
@@ -106,17 +117,17 @@ def p_xor(text):
 
 def p_template_depth(text):
     """Template-ids nested more than 100 levels deep."""
-    return bool(re.search(r"(?:%s\s*<\s*){100}" % ID, text))
+    return max_adjacent(re.compile(r"%s[ \t]*<[ \t]*" % ID), text) > 100
 
 
 def p_expr_depth(text):
-    """A constant expression chaining more than 50000 binary operators."""
-    return bool(re.search(r"(?:[\w)]\s*[-+*|&]\s*){50000}", text))
+    """A constant expression chaining more than 50000 binary operators (on one line)."""
+    return any(len(ln) > 100000 and max(ln.count(c) for c in "+-*|&") > 50000 for ln in text.split("\n"))
 
 
 def p_array_dims(text):
     """A declarator with more than 300 array dimensions."""
-    return bool(re.search(r"(?:\[[^\][]*\]\s*){300}", text))
+    return max_adjacent(re.compile(r"\[[^\][\n]{0,8}\][ \t]*"), text) > 300
 
 
 CLASSES = [
@@ -336,6 +347,7 @@ def make_jobs(inputs, modes_for, work):
        D   the value of a -D definition used by the source / the whole -D argument"""
     jobs = []
     for idx, (name, text, extra) in enumerate(inputs):
+        cls = classes_of(as_text(text))
         for mode in modes_for(idx, name, text):
             j = Job()
             j.jid, j.name, j.mode, j.text, j.extra = len(jobs), name, mode, text, extra
@@ -355,7 +367,7 @@ def make_jobs(inputs, modes_for, work):
             elif mode == "D":
                 j.tool = "parse_file"
                 j.args = ["-D", "VAL=" + as_arg(text), "-D", as_arg(text), "use.h"]
-            j.classes = classes_of(as_text(text))
+            j.classes = cls
             jobs.append(j)
     return jobs
 
